@@ -105,6 +105,43 @@ def _r1_body(ctx, F, b):
             if so and all(o.kind == 'param' and o.key == src_i for o in so):
                 staged_copies.append(cb)
     for cb, ct in fl.calls(lambda c: c.endswith('OpenOptions::write') or c.endswith('OpenOptions::append') or c.endswith('OpenOptions::create')):
+        # re-opening the STAGING file for writing = continuing a leftover of an interrupted run.  What it holds is a prefix of the
+        # version that was being delivered then; the source may have changed since, so continuing it is only right after its bytes
+        # were compared with the source's.  A decision that is not even given the source (path or open file) cannot have looked:
+        # reported.  One that is given both is a statement about what it compares - not decided.
+        opens_ = [(ob, ot) for ob, ot in fl.calls(lambda c: c.endswith('OpenOptions::open')) if fl.cfg.can_reach(cb, ob) and is_tmp(ot['args'][1])]
+        if opens_:
+            decided_with_src = False
+            for sb in fl.cfg.reachable():
+                st_ = b.blocks[sb]['term']
+                if st_['k'] != 'switch' or st_['on']['k'] == 'const' or not fl.cfg.dominates(sb, opens_[0][0]):
+                    continue
+                for o in fl.origins(st_['on']):
+                    if o.kind == 'call' and o.bb is not None and F.body(str(o.key)) is not None:
+                        for a in b.blocks[o.bb]['term'].get('args', []):
+                            if a['k'] == 'const':
+                                continue
+                            ty_ = b.local_ty(a['p']['l']).replace('&', '').replace('mut ', '').strip()
+                            if ty_ in ('std::path::Path', 'std::path::PathBuf', 'std::fs::File') and is_plain_param(F, fl, a, src_i):
+                                decided_with_src = True
+            # (the deciding helper may have been spliced in: the call site is remembered on the goto that replaced it)
+            for sb in fl.cfg.reachable():
+                st_ = b.blocks[sb]['term']
+                if st_.get('inlined') and fl.cfg.can_reach(sb, opens_[0][0]) and str(st_.get('inlined')).split('::{')[0] not in (COPY,):
+                    for a in st_.get('inlined_args', []):
+                        if a['k'] == 'const':
+                            continue
+                        ty_ = b.local_ty(a['p']['l']).replace('&', '').replace('mut ', '').strip()
+                        rty_ = b.local_ty(st_['inlined_dst']['l']) if isinstance(st_.get('inlined_dst'), dict) else ''
+                        if ty_ in ('std::path::Path', 'std::path::PathBuf', 'std::fs::File') and is_plain_param(F, fl, a, src_i) and rty_ in ('bool', 'u64', 'usize') or \
+                                (ty_ in ('std::path::Path', 'std::path::PathBuf', 'std::fs::File') and is_plain_param(F, fl, a, src_i) and rty_.startswith('std::option::Option<')):
+                            decided_with_src = True
+            if decided_with_src:
+                ctx.undecided('C08.R1', 'copy_atomic continues a leftover staging file under a test that is given the source: that the leftover is compared byte for byte with the source is not decided')
+            else:
+                ctx.bad('C08.R1', 'copy_atomic:leftover-continued-unverified', 'copy_atomic re-opens an existing staging file and continues it, and what decides that is not given the source: a leftover '
+                        'of an interrupted run is trusted by its length alone - if the source was edited in between, the published file is the head of one version and the tail of another', term_loc(b, cb))
+            continue
         ctx.bad('C08.R1', 'copy_atomic:OpenOptions-write', 'copy_atomic opens a file for writing through OpenOptions (not the staged copy)', term_loc(b, cb))
     # content may also be streamed into a created staging file (File::create(tmp) + io::copy / write_all): those writes count
     streamed = []
@@ -185,6 +222,8 @@ def r2(ctx, F, bs):
                   term_loc(b, bb))
     # OpenOptions opened for write inside the graph
     for b, bb, c in cg.call_sites(lambda c: c == 'std::fs::OpenOptions::write' or c == 'std::fs::OpenOptions::append' or c == 'std::fs::OpenOptions::create', within=graph):
+        if b.path.split('::{')[0] in pubs:
+            continue        # inside the delivery primitive itself: judged by C08.R1 (a staging file continued)
         ctx.bad('C08.R2', '%s:OpenOptions-write' % b.path.split('::{')[0], 'file opened for writing in the bisync call graph outside copy_atomic / Archive::save', term_loc(b, bb))
     # a link places complete content atomically, but unlike a rename it does not REPLACE: onto a name a killed run left behind
     # it fails with AlreadyExists - forever, unless that very error falls back to a publisher that replaces
